@@ -138,13 +138,21 @@ package plenc
 //@   atcall plenccodec.Codec.Size [C06,C01] @reflect.Type.Kind(@reflect.TypeOf(value)) == 25 && directiface(u64(@reflect.TypeOf(value).data)) ==> loadptr(arg1) == value.data
 //@   atcall plenccodec.Codec.Omit [C06,C01] @reflect.Type.Kind(@reflect.TypeOf(value)) == 25 && directiface(u64(@reflect.TypeOf(value).data)) ==> loadptr(arg1) == value.data
 
-//@ # The structural test mirrors the compiler's rule for pointer-shaped types. That the rule is the compiler's is a fact
-//@ # about the Go implementation, assumed here (trusted), not proved.
+//@ # The structural test is the compiler's rule for pointer-shaped types, clause by clause (proved of the body):
+//@ # pointers, maps, channels, functions and unsafe pointers; a struct of exactly one such field; an array of exactly
+//@ # one such element; nothing else. That this rule is the compiler's - that it coincides with directiface - is a fact
+//@ # about the Go implementation, assumed where the function is called (assumedensures), not proved.
 //@ func plenc.isDirectIface
-//@   trusted
+//@   safety C06
 //@   pure
 //@   assigns nothing
-//@   ensures result == directiface(u64(typ.data))
+//@   ensures[C06,C01] @reflect.Type.Kind(typ) == 22 || @reflect.Type.Kind(typ) == 21 || @reflect.Type.Kind(typ) == 18 || @reflect.Type.Kind(typ) == 19 || @reflect.Type.Kind(typ) == 26 ==> result
+//@   ensures[C06,C01] @reflect.Type.Kind(typ) == 25 && @reflect.Type.NumField(typ) != 1 ==> !result
+//@   ensures[C06,C01] @reflect.Type.Kind(typ) == 25 && @reflect.Type.NumField(typ) == 1 ==> called_isDirectIface && result == call_isDirectIface_r0 && call_isDirectIface_arg0 == @reflect.Type.Field(typ, 0).Type
+//@   ensures[C06,C01] @reflect.Type.Kind(typ) == 17 && @reflect.Type.Len(typ) != 1 ==> !result
+//@   ensures[C06,C01] @reflect.Type.Kind(typ) == 17 && @reflect.Type.Len(typ) == 1 ==> called_isDirectIface && result == call_isDirectIface_r0 && call_isDirectIface_arg0 == @reflect.Type.Elem(typ)
+//@   ensures[C06,C01] @reflect.Type.Kind(typ) != 22 && @reflect.Type.Kind(typ) != 21 && @reflect.Type.Kind(typ) != 18 && @reflect.Type.Kind(typ) != 19 && @reflect.Type.Kind(typ) != 26 && @reflect.Type.Kind(typ) != 25 && @reflect.Type.Kind(typ) != 17 ==> !result
+//@   assumedensures[C06,C01] result == directiface(u64(typ.data))
 
 //@ func plenc.*Plenc.Unmarshal
 //@   safety C04 C17
